@@ -1,4 +1,4 @@
 ---- MODULE MC_Config ----
 EXTENDS Config
-DefaultV == [k \in {"num", "text", "switch"} |-> 0]
+DefaultV == [k \in {"num", "text", "switch", "ext"} |-> IF k = "num" THEN 1 ELSE 0]
 ====
